@@ -37,6 +37,7 @@ struct PlanOp {
   int64_t p[4] = {0, 0, 0, 0};
   uint64_t salt = 0;
   int throw_at = -1;
+  int rep = 1;  // the call is made `rep` times in a row inside one operation (call volume)
 };
 struct SchedSpec {
   int strategy = sim::S_SERIAL;
@@ -67,8 +68,8 @@ static std::string plan_to_text(const Plan& pl) {
     snprintf(b, sizeof b, "task %zu %zu\n", t, pl.tasks[t].size());
     s += b;
     for (const auto& op : pl.tasks[t]) {
-      snprintf(b, sizeof b, "op %s %" PRId64 " %" PRId64 " %" PRId64 " %" PRId64 " %" PRIu64 " %d\n", op.name.c_str(),
-               op.p[0], op.p[1], op.p[2], op.p[3], op.salt, op.throw_at);
+      snprintf(b, sizeof b, "op %s %" PRId64 " %" PRId64 " %" PRId64 " %" PRId64 " %" PRIu64 " %d %d\n", op.name.c_str(),
+               op.p[0], op.p[1], op.p[2], op.p[3], op.salt, op.throw_at, op.rep);
       s += b;
     }
   }
@@ -120,8 +121,11 @@ static bool plan_from_text(const char* text, Plan& pl, std::string& err) {
       if (cur_task < 0) { err = "op before task"; return false; }
       PlanOp op;
       char name[128];
-      if (sscanf(rest, "%127s %" SCNd64 " %" SCNd64 " %" SCNd64 " %" SCNd64 " %" SCNu64 " %d", name, &op.p[0], &op.p[1],
-                 &op.p[2], &op.p[3], &op.salt, &op.throw_at) != 7) { err = "bad op line: " + line; return false; }
+      int nf = sscanf(rest, "%127s %" SCNd64 " %" SCNd64 " %" SCNd64 " %" SCNd64 " %" SCNu64 " %d %d", name, &op.p[0], &op.p[1],
+                      &op.p[2], &op.p[3], &op.salt, &op.throw_at, &op.rep);
+      if (nf < 7) { err = "bad op line: " + line; return false; }
+      if (nf < 8 || op.rep < 1) op.rep = 1;
+      if (op.rep > 4096) op.rep = 4096;
       op.name = name;
       if (pl.tasks[(size_t)cur_task].size() >= (size_t)kMaxOps) { err = "too many ops"; return false; }
       pl.tasks[(size_t)cur_task].push_back(op);
@@ -236,7 +240,7 @@ static void task_body(int task, void* arg) {
     out.reset();
     uint64_t t0 = sim::now();
     sim::op_begin((int)i);
-    run_op_guarded(list[i], out, &g_shm->threw[pt][i]);
+    for (int k = 0; k < list[i].rep; ++k) run_op_guarded(list[i], out, &g_shm->threw[pt][i]);
     sim::op_end();
     g_shm->op_events[pt][i] = sim::now() - t0;
   }
@@ -260,6 +264,7 @@ static void child_common_setup(const Plan& pl, RunCtx& rc) {
       for (int k = 0; k < 4; ++k) oi.p[k] = po.p[k];
       oi.salt = po.salt;
       oi.throw_at = po.throw_at;
+      oi.rep = po.rep;
       oi.st = nullptr;
       oi.cb_count = 0;
       rc.ops[t].push_back(oi);
@@ -648,6 +653,9 @@ static PlanOp random_op(Rng& r, const OpDef* d) {
   op.p[3] = r.below(4);
   op.salt = r.u64();
   op.throw_at = (d->has_callback && r.coin(0.15)) ? (int)r.below(6) : -1;
+  // call volume: a few operations repeat their call 16..256 times (counters that wrap, tables that
+  // fill up, generations that come round again)
+  op.rep = (!d->heavy && r.coin(0.06)) ? (16 << r.below(5)) : 1;
   return op;
 }
 
